@@ -25,7 +25,7 @@ CHECKS = {
         "positive consistent dimensions) is preserved by element-wise ops, conj/flip_signature, add/sub, transpose, tensordot, trace, add_leg, remove_leg, broadcast, apply_mask and diag for ALL well-formed operands, with the total "
         "charge algebra (sum for contraction via the C19 grouping law, negation for conj, unchanged by trace, n±t for add/remove_leg, unchanged otherwise); eval_wf lifts it to every finite program; wf_fuseHard: hard fusion over every partition of the legs yields a well-formed tensor; forbidden dense "
         "elements are zero; the driver's executable wf flag is proved sound for WF. Tie: program correspondence on structure after every step + is_consistent() + "
-        "independent selection-rule/order/shape/size/fusion-meta oracle, forbidden-zero oracle and charge table on the real code (also for svd/qr/fuse/ncon results).",
+        "independent selection-rule/order/shape/size/fusion-meta oracle, forbidden-zero oracle and charge table on the real code (also for svd/qr/fuse/ncon results); initialisers incl. set_block (forbidden blocks rejected, tensor untouched).",
    note=TB + "factorisation/ncon/einsum results (and unfuse, meta fusion) are covered by correspondence and oracles, not by WF theorems. Ops outside the model: autograd, to(device), torch backends.",
    technique="Lean 4 proof (invariant preserved by every modelled op and program) + structural correspondence/oracles", design="§5 C02"),
  "C03": dict(
@@ -46,7 +46,7 @@ CHECKS = {
         "signatures, both nU and every block obeying the selection rule: blocks of U and V obey the selection rule with exactly the promised charges, S has charge 0, the "
         "connecting charge is canonical and INJECTIVE on matrix blocks (no cross terms in U@S@V / Q@R). Tie: exact structure correspondence of real factors (blocks, charges) vs "
         "the model, plus oracles on the real code: charge of each factor, signature/position of the new leg, leg order, is_consistent; numerical contracts validated per run to "
-        "1e-10: reconstruction, U/Q isometric, V co-isometric, eig bi-orthonormal, S non-negative descending and equal to numpy's spectrum, R upper triangular with non-negative diagonal; inputs with exactly vanishing blocks; block-wise partial solvers (lowrank/block_arnoldi/block_propack): isometry, order within the sector, the k largest values (1e-6).",
+        "1e-10: reconstruction, U/Q isometric, V co-isometric, eig bi-orthonormal, S non-negative descending and equal to numpy's spectrum, R upper triangular with non-negative diagonal; inputs with exactly vanishing blocks; block-wise partial solvers (svd: lowrank/block_arnoldi/block_propack incl. the boundary k = min(D)-1,2,3 on large sectors, real and complex; eigh: block_lanczos in every ordering): isometry, order within the sector, the k first values, a U = U S (1e-6); a valid request must be answered.",
    note=TB + "LAPACK per-block factorisations are ASSUMED contracts validated numerically on every run (partial proof: assembly logic proved, numerics validated). The torch-only 'randomized' policy is not covered. eigh/eig structure is covered by oracles only.",
    technique="Lean 4 proof of factor charge structure + validated numerical contracts", design="§5 C04"),
  "C05": dict(
@@ -155,7 +155,7 @@ CHECKS = {
         "call/clear/resize events each call returns f x (transparency), warm = cold, size bound, key uniqueness, hit iff, counters, exact eviction policy; key adequacy (KMemo, a table keyed by a projection k of the argument): every call returns f of the FIRST argument of the history sharing its key, transparent iff k x = k y -> f x = f y, a shared key hands the foreign value over and the two orders of a history disagree. Tie: the 18 "
         "cached yastn functions (every binding) are wrapped at run time; on every HIT the value is recomputed with __wrapped__ and deep-compared, digests detect "
         "mutation after insertion; workload interleaves tensors of different symmetry/fermionic flags/fusion history with coinciding struct/slices under cache sizes "
-        "0/1/2/default with clears/resizes; every operation warm vs cold bit-identical; cache_info() vs the model after every event; fresh-process order oracle: every history (also einsum with swap/order strings, dense output in both sector orders, Leg construction from out-of-range charges) is executed in two pristine forked processes, events in the given and in the reversed order, every operation bit-identical in both (covers memoisation that is not an lru_cache).",
+        "0/1/2/default with clears/resizes; every operation warm vs cold bit-identical; cache_info() vs the model after every event; fresh-process order oracle: every history (also einsum with swap/order strings, dense output in both sector orders, Leg construction from out-of-range charges) is executed in two pristine forked processes, events in the given and in the reversed order, every operation bit-identical in both (covers memoisation that is not an lru_cache); clear_cache/set_cache_maxsize/get_cache_info must keep working after every resize; tensors restored from JSON-listified dictionaries.",
    note=TB + "Purity and key adequacy of the real cached functions are monitored and order-tested, not proved.",
    technique="Lean 4 proof of LRU transparency + run-time cache monitor / warm-vs-cold oracle", design="§5 C16"),
  "C17": dict(
@@ -182,7 +182,7 @@ CHECKS = {
    text="Group laws (associativity, commutativity, identity, inverse by signature flip, canonical range, grouping law) are Lean theorems "
         "for all of Z^NSYM, all signature vectors and all groupings, about the fusion rules REGENERATED from yastn/sym/*.py by a translator on every run; "
         "Leg acceptance iff/sortedness/conj involution are theorems about a hand model of Leg.__post_init__. Tie: translator + box correspondence of real "
-        "fuse/add_charges/Leg vs the model + axioms evaluated on the real code over the box; add_charges with the documented default new_signature; Leg arguments with fractional or integral-float signature, charges and dimensions (oracle only).",
+        "fuse/add_charges/Leg vs the model + axioms evaluated on the real code over the box; add_charges with the documented default new_signature; Leg arguments with fractional or integral-float signature, charges and dimensions, Leg construction with an explicit fusion record hf (oracle only).",
    note=TB + "Modelled, not verified: numpy matmul/mod semantics of the one-line rules (Euclidean mod for positive moduli), Leg constructor restricted to integer arguments.",
    technique="Lean 4 proof over translator-generated model + box correspondence", design="§5 C19"),
  "C20": dict(
